@@ -2419,7 +2419,7 @@ def call_dsl(eng, name, args, kwargs, node, frame):
         run.uses_bits = True
         return tv_bool(TESTBIT(a[0].as_int(), a[1].as_int()))
     if name == "same":
-        x, y = a
+        x, y = (eng.to_tv(v) if isinstance(v, PyObj) else v for v in a)
         if x.sort != "val" and y.sort != "val":
             if x.sort != y.sort:
                 return tv_bool(False)
